@@ -1329,3 +1329,23 @@ Fixpoint rsv_default (t : mbox) : bool :=
   | MUnknown _ _ => true
   | MPre _ l r cs => rsv_eqb r (dflt_rsv l) && forallb rsv_default cs
   end.
+
+(* ---------------------------------------------------------------- the second decode *)
+(* a decoded tree in which every captured reserved chunk has been replaced by what the encoder writes there:
+   the tree that decoding the re-encoded bytes yields (C01_fixpoint) *)
+Fixpoint norm_box (t : mbox) : mbox :=
+  match t with
+  | MLeaf h l _ => MLeaf h l (dflt_rsv l)
+  | MCont h cs => MCont h (map norm_box cs)
+  | MUnknown h p => MUnknown h p
+  | MPre h l _ cs => MPre h l (dflt_rsv l) (map norm_box cs)
+  end.
+(* the same tree with the captured chunks erased: two trees are equal up to captured reserved bytes iff their
+   erasures are equal *)
+Fixpoint erase_rsv (t : mbox) : mbox :=
+  match t with
+  | MLeaf h l _ => MLeaf h l []
+  | MCont h cs => MCont h (map erase_rsv cs)
+  | MUnknown h p => MUnknown h p
+  | MPre h l _ cs => MPre h l [] (map erase_rsv cs)
+  end.
